@@ -52,6 +52,21 @@ CHECKS = {
    text="Per type and endianness, the layout the emitted encoder writes (bit provenance of every put_*, byte order, arrays, "
         "padding, payload, optionals, size/count/flag derivations, child regions) equals the reference layout item by item "
         "and bit by bit; value independent, hence for all values.", ref="7/C03"),
+ "C04": dict(level="translation_validation", technique="decoder layout extraction (event trace of the abstract interpreter) compared with the reference model; rejection inventory",
+   text="Per declaration and endianness, what the emitted decoder reads (bits of every chunk and their use, byte order, "
+        "array delimitation by count/size/rest and element octets, padding, payload delimitation incl. modifier and static "
+        "tail, optionals and their flag, nested structs) equals the reference layout; every rejection cause (fixed value, "
+        "enum value, size multiple, constraint, trailing bytes) has its reject point with the right DecodeError variant. "
+        "The iff over all byte strings as a single theorem is not machine-checked.", ref="7/C04"),
+ "C02": dict(level="translation_validation", technique="direct encoder-layout vs decoder-layout comparison with symmetric derivation of size/count/flag fields",
+   text="The necessary conditions of round-trip identity are decided encoder against decoder: same items, same field at the "
+        "same bit, same byte order, derived fields derived and consumed symmetrically, fixed bits written == compared, "
+        "decoder range within the encoder's accepted range. Equality of values follows by the argument in DESIGN.md.",
+   ref="7/C02"),
+ "C17": dict(level="translation_validation", technique="layout comparison of little/big-endian twin descriptions",
+   text="For every twin pair of corpus descriptions the extracted encoder and decoder layouts are identical except the byte "
+        "order tag of multi-byte accesses, which is little vs big; single bytes, byte arrays, payload and padding identical.",
+   ref="7/C17"),
 }
 NOT_APPLICABLE = {
  "C19": "Java backend: no Java front-end to the abstract interpreter can be built and validated in this sandbox "
